@@ -340,6 +340,9 @@ impl Gen {
             Kd::Entry => {
                 let kid = self.key(rng, sv, 50);
                 let present = sv.ids.contains(&kid);
+                if self.family == Family::Set {
+                    return Op::new(kind).s(s).a(kid as i64).c(rng.below(6) as i64);
+                }
                 Op::new(kind).s(s).a(kid as i64).b(val).c((self.allow_forget && rng.below(5) == 0) as i64).v(self.entry_chain(rng, present))
             }
             Kd::GetMany | Kd::GetManyKv | Kd::TGetMany => {
